@@ -471,6 +471,7 @@ type Contract struct {
 	Requires  []Clause
 	Ensures   []Clause
 	Rely []Clause
+	LockInv []Clause // invariant of the state protected by the object's lock (`opt lock`)
 	ExitEnsures []Clause // atomic mode: clauses about the action log, evaluated at exit
 	PanicsIff *Clause
 	OnPanic   []Clause
@@ -562,7 +563,7 @@ func NewContractSet() *ContractSet {
 }
 
 var clauseKeywords = map[string]bool{
-	"func": true, "requires": true, "ensures": true, "exit_ensures": true, "rely": true, "panics_iff": true, "on_panic": true,
+	"func": true, "requires": true, "ensures": true, "exit_ensures": true, "rely": true, "lockinv": true, "panics_iff": true, "on_panic": true,
 	"assigns": true, "loop": true, "inline": true, "trusted": true, "classes": true, "pure": true,
 	"property": true, "spec": true, "axiom": true, "lemma": true, "type": true, "let": true, "mode": true,
 	"opt": true, "ghost": true, "callback": true, "pair": true, "ghostvar": true, "rangecall": true, "implements": true, "bounded": true, "adt": true, "owned": true, "owns": true, "gives": true,
@@ -726,6 +727,17 @@ func (cs *ContractSet) parseFile(path string) error {
 				return err
 			}
 			cur.Rely = append(cur.Rely, Clause{E: e, Src: rest})
+		case "lockinv":
+			// lockinv <expr>: invariant of the state guarded by the object's lock: assumed when the lock is acquired
+			// (or held on entry), proved when a write lock is released
+			if cur == nil {
+				return fail("lockinv outside func")
+			}
+			e, err := parse(rest)
+			if err != nil {
+				return err
+			}
+			cur.LockInv = append(cur.LockInv, Clause{E: e, Src: rest})
 		case "exit_ensures":
 			if cur == nil {
 				return fail("exit_ensures outside func")
